@@ -144,9 +144,11 @@ def jobs_for(pid, tier, seed):
         J.append(mfam('2 tasks, hooks panic', ['C04'], 5 if q else 7, tasks=2, hooks=H3, env={'create': OE, 'recycle': OE, 'hook': ('ok', 'err', 'panic')}, take=False, probe=False))
     elif pid == 'C06':
         E = {'create': OE, 'recycle': OE}
-        J.append(mfam('task level: 2 tasks + close/resize/status, waiters, returns after close', ['C06'], 6 if q else 8, tasks=2, env=E, ctl=('close', 'resize', 'status'), resize_targets=(1, 2), max_ctl=2, probe=False))
+        J.append(mfam('task level: 2 tasks + close/resize/status/is_closed, waiters, returns after close', ['C06'], 6 if q else 8, tasks=2, env=E, ctl=('close', 'resize', 'status', 'is_closed'), resize_targets=(1, 2), max_ctl=2, probe=False))
         J.append(mfam('task level: close while a get() is suspended in create / recycle', ['C06'], 5 if q else 7, tasks=2, env={'create': ('ok', 'pending'), 'recycle': ('ok', 'pending')},
                       ctl=('close', 'status'), max_ctl=2, probe=False, take=False, cancel=False))
+        J.append(mfam('objects that outlive every pool handle: return / take after the last handle is gone (with and without close)', ['C06'], 5 if q else 6, tasks=2, max_size_concrete=2,
+                      prefix=(('get', 'T1', 0), ('get', 'T2', 0)), env={'create': ('ok',), 'recycle': ('ok',)}, ctl=('close', 'drop_pool'), max_ctl=2, max_gets=2, cancel=False, probe=False, lifo=False))
         J.append(mfam('task level: 3 tasks + close', ['C06'], 5 if q else 7, tasks=3, env={'create': ('ok',), 'recycle': ('ok',)}, ctl=('close',), max_ctl=1, probe=False, take=False))
         J.append(mfam('thread level: return racing close (1 object out)', ['C06'], 12 if q else 16, tasks=1, env={'create': ('ok',), 'recycle': ('ok',)}, ctl=('close',), max_ctl=1,
                       thread_mode=True, prefix=(('get', 'T1', 0),), cancel=False, take=False, probe=False, lifo=False))
@@ -183,6 +185,11 @@ def jobs_for(pid, tier, seed):
         J.append(mfam('1 task, per-call timeouts, hooks async', ['C10', 'C04', 'C03'], 5 if q else 8, tasks=1, hooks=H3A, env=E, timeout_variants=TV, take=False, probe=False, lifo=False))
         J.append(mfam('2 tasks, pool-level timeouts (pos,pos,pos)', ['C10', 'C04', 'C03'], 5 if q else 7, tasks=2, env={'create': OEPS, 'recycle': OEPS}, pool_timeouts=('pos', 'pos', 'pos'), take=False, probe=False, lifo=False))
         J.append(mfam('2 tasks, pool-level zero wait', ['C10'], 5 if q else 7, tasks=2, env={'create': OEP, 'recycle': OEP}, pool_timeouts=('zero', None, None), take=False, probe=False, lifo=False))
+        TG = [('timeout_get', 'zero'), ('timeout_get', 'pos'), ('timeout_get', None), 'get', 'try_get']
+        for rt_ in (True, False):
+            for ct in (None, 'pos'):
+                J.append(ufam(f'unmanaged pool: timeout_get / get / try_get, runtime {"present" if rt_ else "absent"}, configured timeout {ct}', ['C10'], 5 if q else 7, tasks=2, ctor='from_config',
+                              config_timeout=ct, runtime=rt_, get_variants=TG, add_variants=['try_add'], max_adds=2, take=False))
         J.append(mfam('no runtime: per-call timeouts', ['C10'], 5 if q else 7, tasks=2, env={'create': OE, 'recycle': OE}, runtime=False, timeout_variants=TV, take=False, cancel=False, probe=False, lifo=False))
         for pt in (('pos', None, None), (None, 'zero', None), (None, None, 'pos'), (None, None, None), ('zero', None, None)):
             J.append(mfam(f'no runtime: build() with configured timeouts {pt}', ['C10'], 2, tasks=1, env={'create': OE, 'recycle': OE}, runtime=False, pool_timeouts=pt, take=False, cancel=False, probe=False, lifo=False))
